@@ -95,6 +95,10 @@ Definition output_char (tb : tabs) (ls : option Z) (c : cell) : option Z * list 
     let set := ls_falsy ls || match ls with Some s => negb (na =? sattr tb s) | None => true end in
     (Some (st c), (if set then [TSGR (apen tb na)] else []) ++ [TText (ch c) (wd c)]).
 
+(* new_char.char == " " and new_char.style == Transparent: a cell nothing was
+   written to; it is drawn as a blank in the default attributes (fix 076cd06) *)
+Definition is_transp (c : cell) : bool := str_eqb (ch c) [32] && (st c =? 1).
+
 (* the column loop of one row; fuel = number of columns that can be visited *)
 Fixpoint cols (fuel : nat) (tb : tabs) (W y : Z) (nrow prow : row) (zw : list (Z * Z * Z))
          (nmax c : Z) (pos : Z * Z) (ls : option Z) : (Z * Z) * option Z * list tok :=
@@ -108,7 +112,8 @@ Fixpoint cols (fuel : nat) (tb : tabs) (W y : Z) (nrow prow : row) (zw : list (Z
       if differs nc oc then
         let '(ls1, t1) := move_cursor W pos ls (c, y) in
         let t2 := match zget zw y c with Some i => [TRaw i] | None => [] end in
-        let '(ls2, t3) := output_char tb ls1 nc in
+        let '(ls2, t3) := if is_transp nc then (@None Z, [TSGR 0; TText [32] 1])
+                          else output_char tb ls1 nc in
         let '(pos', ls', ts) := cols f tb W y nrow prow zw nmax (c + cw) (c + cw, y) ls2 in
         (pos', ls', t1 ++ t2 ++ t3 ++ ts)
       else cols f tb W y nrow prow zw nmax (c + cw) pos ls
